@@ -78,7 +78,7 @@ class Schema:
         named = [i for i in self.desc["instances"] if i["kind"] in ("struct", "union") and i.get("tlname")]
         toks += ["R", str(len(named))]
         for i in named:
-            toks += [str(i["idx"]), i["tlname"], "1" if i["topLevel"] else "0"]
+            toks += [str(i["idx"]), i["tlname"], "1" if i["topLevel"] else "0", str(i.get("annotations", 0))]
         # optional trailing section: TL name of every instance (JSON model: union variant names)
         toks += ["N", str(len(self.desc["instances"]))] + [(i.get("tlname") or "-").replace(" ", "") or "-" for i in self.desc["instances"]]
         return "codec.desc %s %s %s" % (self.sid, "1" if self.sanity else "0", " ".join(toks))
@@ -172,7 +172,7 @@ def factory_items(sc):
     p = subprocess.run(sc.impl, input=b"codec.items x\n", stdout=subprocess.PIPE)
     res = []
     for t in p.stdout.decode().split()[1:]:
-        n, tag, fn, h1, h2 = t.rsplit(":", 4)
+        n, tag, fn, h1, h2, _ann = t.rsplit(":", 5)
         res.append((n, int(tag), fn == "true", h1 == "true", h2 == "true"))
     return res
 
